@@ -2,6 +2,8 @@
 from __future__ import annotations
 
 import ast
+import os
+import sys
 import inspect
 import textwrap
 import time
@@ -426,11 +428,17 @@ def run_paths(registry: Registry, c: Contract, label: str, setup: Callable, max_
     summaries: set = set()
     feas_unknown = 0
     outcomes = []
+    t_explore = time.time()
+    budget_s = getattr(c, 'explore_budget_s', 90)
     while worklist:
         prefix = worklist.pop()
         npaths += 1
         if npaths > max_paths:
             unsupported.append(f'path limit {max_paths} exceeded')
+            break
+        if time.time() - t_explore > budget_s:
+            # a change to the code under contract can blow the path space up; that is undecided, not a hang
+            unsupported.append(f'path exploration budget of {budget_s} s exceeded after {npaths - 1} paths')
             break
         path = Path(prefix, worklist, feas_timeout_ms=getattr(c, 'feas_timeout_ms', 2000))
         I = Interp(path, registry)
@@ -714,7 +722,12 @@ def verify_contracts(registry: Registry, contracts: list, timeout_ms: int = 1000
     else:
         collected = [_serialise(_collect(registry, c)) for c in contracts]
     all_obs = [o for col in collected for o in col['obs']]
+    if os.environ.get('PYVC_TRACE'):
+        print(f'[pyvc] explored {len(contracts)} contracts: {len(all_obs)} obligations, '
+              f'{sum(len(o.smt2) for o in all_obs if hasattr(o, "smt2")) >> 20} MiB of SMT-LIB', file=sys.stderr, flush=True)
     results = smt.discharge(all_obs, timeout_ms=timeout_ms, jobs=jobs)
+    if os.environ.get('PYVC_TRACE'):
+        print(f'[pyvc] discharged: {sum(r.status == "unknown" for r in results)} unknown', file=sys.stderr, flush=True)
     reports = []
     k = 0
     for c, col in zip(contracts, collected):
